@@ -44,7 +44,8 @@ CallFailed(e) ==
 ReqFailed(e) ==
   (IF e.exc = "" THEN {} ELSE {"Exception"})
   \* sample i is a pure function of (data, config, seed, i)
-  \cup (IF e.exc = "" /\ ~Functional(<<e.seed, e.i>>, e.out) THEN {"PureInIndex"} ELSE {})
+  \* (e.v = 0: the whole sample; e.v = k > 0: the k-th view of a multi-view sample, recorded for probes only)
+  \cup (IF e.exc = "" /\ ~Functional(<<e.seed, e.i, e.v>>, e.out) THEN {"PureInIndex"} ELSE {})
   \* different indices draw from different streams
   \cup (IF e.exc = "" /\ e.probe /\ \E p \in seen : p[1][1] = e.seed /\ p[1][2] # e.i /\ p[2] = e.out
           THEN {"DistinctStreams"} ELSE {})
@@ -56,6 +57,13 @@ NodeFailed(e) ==
   \* the same worker seed reproduces the same stream
   \cup (IF e.exc = "" /\ e.sameseed /\ e.sa # e.sb THEN {"WorkerStreamReproducible"} ELSE {})
 
+\* per-index random decisions recorded in the context (one 0/1 per index, >= 40 indices): different indices draw from
+\* different streams, so the decisions cannot all coincide (probability < 2^-39 for independent fair draws)
+VaryFailed(e) ==
+  (IF e.exc = "" THEN {} ELSE {"Exception"})
+  \cup (IF e.exc = "" /\ Len(e.vals) >= 40 /\ \A j \in 1..Len(e.vals) : e.vals[j] = e.vals[1]
+          THEN {"DistinctStreams"} ELSE {})
+
 TInit == tid \in 1..Len(Traces) /\ l = 1 /\ failed = {} /\ seen = {} /\ outs = <<>>
 TNext ==
   /\ l <= NEv /\ failed = {}
@@ -64,8 +72,10 @@ TNext ==
        CASE e.a = "call" -> /\ failed' = CallFailed(e)
                             /\ seen' = seen \cup {<<<<e.seed, e.k, e.inp>>, <<e.out, e.ctx>>>>}
          [] e.a = "req"  -> /\ failed' = ReqFailed(e)
-                            /\ seen' = seen \cup {<<<<e.seed, e.i>>, e.out>>}
+                            /\ seen' = seen \cup {<<<<e.seed, e.i, e.v>>, e.out>>}
          [] e.a = "node" -> /\ failed' = NodeFailed(e)
+                            /\ seen' = seen
+         [] e.a = "vary" -> /\ failed' = VaryFailed(e)
                             /\ seen' = seen
          [] OTHER -> failed' = {"UnknownEvent"} /\ seen' = seen
   /\ UNCHANGED <<tid, outs>>
